@@ -3,10 +3,11 @@
    elsewhere (Proxy/ProxyStrings.v, ProxyFacts.v, ProxyConc.v, ProxyTheorems.v), with
    Print Assumptions beneath it.  The model is Proxy/Proxy.v; every literal of goproxytest
    (routing strings, extensions, suffixes, separators) is a name of Gen/ProxyConsts.v. *)
-From Coq Require Import List.
+From Coq Require Import List NArith.
 From Coq.Strings Require Import Byte.
 From GI Require Import Gen.ProxyConsts Proxy.Proxy Proxy.ProxyStrings Proxy.ProxyFacts Proxy.ProxyConc
-  Proxy.ProxyTheorems Proxy.ProxyExamples.
+  Proxy.ProxyTheorems Proxy.ProxyExamples Proxy.XMod Proxy.XModFacts Proxy.ProxyRefine Proxy.ProxyRefineInst.
+From GI Require Import Par.ParCache Par.ParCacheProofs.
 Import ListNotations.
 
 (* module.unescapeString inverts module.escapeString, and conversely *)
@@ -48,6 +49,23 @@ Theorem C20_serves_stored : forall O d ml p v ep ev a,
    respond O d ml (file_url ep ev ext_zip) = OkZip (zip_entries p v a)).
 Proof. exact serves_stored. Qed.
 Print Assumptions C20_serves_stored.
+
+(* the zip as archive/zip's Writer records it in the central directory: one record per stored
+   file whose name does not start with ".", in archive order, named path@vers/name, method
+   Deflate (Store for names ending in "/"), flags, CRC-32 (oracle function crc) and size of the
+   stored data *)
+Theorem C20_zip_central_directory : forall O crc d ml p v ep ev a,
+  path_ok O p -> vers_ok O v -> allhex v = false ->
+  escape_string p = Some ep -> escape_string v = Some ev ->
+  stored O d p v = Some a ->
+  (forall f, In f (visible a) -> zip_entry_bad (zip_name p v (fst f)) (snd f) = false) ->
+  exists es, respond O d ml (file_url ep ev ext_zip) = OkZip es /\
+    central_directory crc es = map (fun f => cd_of crc (zip_name p v (fst f), snd f)) (visible a) /\
+    map cd_name (central_directory crc es) = map (fun f => zip_name p v (fst f)) (visible a) /\
+    map cd_size (central_directory crc es) = map (fun f => N.of_nat (length (snd f))) (visible a) /\
+    map cd_crc (central_directory crc es) = map (fun f => crc (snd f)) (visible a).
+Proof. exact zip_central_directory. Qed.
+Print Assumptions C20_zip_central_directory.
 
 (* the list endpoint: the versions of the module list with that path that are not pseudo-versions
    and pass module.Check, one per line, in directory order (duplicates kept); 404 when none *)
@@ -159,6 +177,65 @@ Theorem C20_some_schedule_finishes : forall d A (pool : list (prog A)) st,
   exists sched, forallb is_ret (fst (run_sched d sched pool st)) = true.
 Proof. exact some_schedule_finishes. Qed.
 Print Assumptions C20_some_schedule_finishes.
+
+(* "once-per-key caches" as a theorem about the modelled par.Cache (group Par, ParCache.v: every
+   synchronisation operation of Cache.Do is a step, Lock blocks, f runs while other threads run):
+   under EVERY interleaving of those operations no handler panics and a handler that has returned
+   holds the response of a fresh server.  Uses C10's do_returns_f_value. *)
+Theorem C20_event_level_same : forall O d ml urls sch st,
+  compatible O d ml urls ->
+  server_arun O d ml urls sch = Some st ->
+  forall i url, nth_error urls i = Some url ->
+  exists h, nth_error (hs response st) i = Some (Some h) /\
+            run_own d h = respond O d ml url /\
+            (forall r, h = Ret r -> r = respond O d ml url).
+Proof. exact server_event_level_same. Qed.
+Print Assumptions C20_event_level_same.
+
+(* and that system does not deadlock: in every reachable state all handlers have returned or
+   some thread can step (from C10's no-deadlock theorem) *)
+Theorem C20_event_level_progress : forall O d ml urls sch st,
+  compatible O d ml urls ->
+  server_arun O d ml urls sch = Some st ->
+  Forall (returned response) (hs response st) \/
+  exists t st', astep response d key_arch key_zip key_name
+                  (zip_of (flat_map (zip_ops d) (map (handler O d ml) urls))) st t = Some st'.
+Proof. exact server_event_level_progress. Qed.
+Print Assumptions C20_event_level_progress.
+
+(* the cache state of such a run is a reachable state of the Par model (so C10's theorems, f at
+   most once per key and race freedom among them, hold of it) *)
+Theorem C20_event_level_cache_reachable : forall A d ka kz name_of Zf (ps : list (prog A)) sch st,
+  arun A d ka kz name_of Zf sch (ainit A ps) = Some st ->
+  (forall n, name_of (ka n) = n) -> (forall n, name_of (kz n) = n) ->
+  (forall n v, In (n, v) (flat_map (zip_ops d) ps) -> Zf n = v) ->
+  exists sc, creachable fval_id (map (calls A d ka kz) ps) sc /\
+             ents (acs A st) = ents sc /\ plain (acs A st) = plain sc.
+Proof. exact event_level_cache_reachable'. Qed.
+Print Assumptions C20_event_level_cache_reachable.
+
+(* with the Gallina x/mod as oracles the side conditions are computed facts *)
+Theorem C20_check_path_x_path_ok : forall short p, check_path_x p = true -> path_ok (xmod_oracles short) p.
+Proof. exact check_path_x_path_ok. Qed.
+Print Assumptions C20_check_path_x_path_ok.
+
+Theorem C20_check_elem_x_vers_ok : forall short v,
+  check_elem_x v = true -> mem_byte bang v = false -> vers_ok (xmod_oracles short) v.
+Proof. exact check_elem_x_vers_ok. Qed.
+Print Assumptions C20_check_elem_x_vers_ok.
+
+Theorem C20_serves_stored_xmod : forall short d ml p v a,
+  check_path_x p = true -> semver_is_valid v = true -> check_elem_x v = true -> mem_byte bang v = false ->
+  stored (xmod_oracles short) d p v = Some a ->
+  exists ep ev, escape_string p = Some ep /\ escape_string v = Some ev /\
+  let O := xmod_oracles short in
+  respond O d ml (file_url ep ev ext_info) =
+    (match find_file (entry_dot ++ ext_info) a with Some data => OkBytes data | None => NotFound end) /\
+  respond O d ml (file_url ep ev ext_mod) =
+    (match find_file (entry_dot ++ ext_mod) a with Some data => OkBytes data | None => NotFound end) /\
+  respond O d ml (file_url ep ev ext_zip) = zip_response (build_zip p v a).
+Proof. exact serves_stored_xmod. Qed.
+Print Assumptions C20_serves_stored_xmod.
 
 (* with "_" the hypothesis of C20_concurrent_same / C20_sequential_same is necessary: the archive
    example.com_a_b_v1.0.0.txt answers for example.com/a_b and example.com/a/b, and the zip cache
